@@ -91,7 +91,8 @@ Definition fail_errs (tr : list event) : list err :=
                      | _ => []
                      end) tr.
 
-Definition C10_holdsb (P : params) (tr : list event) : N :=
+(* clauses 1-6: the failure scenario proper *)
+Definition C10_base (P : params) (tr : list event) : N :=
   let '(pre, hit) := split_first is_fail_exit tr in
   match hit with
   | None =>
@@ -118,6 +119,26 @@ Definition C10_holdsb (P : params) (tr : list event) : N :=
         then 6%N                                        (* a running child was not stopped *)
         else 0%N
       end
+  end.
+
+(* clause 7, independent of WHEN the failure happened (whatever Reload() / Stop() / cancel was in
+   progress): if the result of Run() wraps ErrRunnableFailed, i.e. Run() reports a child's failure,
+   then every state observed after Run() returned is Error.  [res] = Run()'s result seen so far. *)
+Fixpoint fs_scan (res : option rescls) (tr : list event) : bool :=
+  match tr with
+  | [] => true
+  | EApiRet OpRun _ r :: t => fs_scan (match res with None => Some r | Some _ => res end) t
+  | EState st :: t =>
+    (match res with Some r => negb (rc_failed r) || fstate_eqb st FError | None => true end) && fs_scan res t
+  | _ :: t => fs_scan res t
+  end.
+
+Definition failed_state_ok (tr : list event) : bool := fs_scan None tr.
+
+Definition C10_holdsb (P : params) (tr : list event) : N :=
+  match C10_base P tr with
+  | 0%N => if failed_state_ok tr then 0%N else 7%N      (* Run() reported a failed child, state observed afterwards is not Error *)
+  | v => v
   end.
 
 (* ------------------------------------------------------------------ C11 *)
